@@ -41,6 +41,27 @@ Proof.
       * destruct (negb r); [destruct H as [H|[]]; discriminate|destruct H].
 Qed.
 
+Lemma submit_attempts_ok_new g x r n : forall s s',
+  submit_attempts g x r n s = (true, s') ->
+  exists j new, evs s' = new ++ evs s /\ In (ESubmit x (kind_of r) (scheduled (attr g x)) (Some j)) new.
+Proof.
+  induction n as [|n IH]; intros s s' E.
+  - rewrite submit_attempts_O in E. discriminate.
+  - rewrite submit_attempts_S in E. cbv zeta in E.
+    set (s1 := if r then emit (EGen x) s else rec_set_status x PENDING s) in E.
+    set (s2 := if scheduled (attr g x) then s1 else rec_set_status x RUNNING s1) in E.
+    assert (Ev2 : evs s2 = (if r then [EGen x] else []) ++ evs s).
+    { subst s2 s1. destruct r, (scheduled (attr g x)); reflexivity. }
+    destruct (next_sub s2) as [b s3] eqn:En. destruct (next_sub_spec _ _ _ En) as [l ->].
+    destruct b.
+    + inversion E; subst s'. exists (next_job (set_subs s2 l)).
+      eexists (ESubmit x (kind_of r) (scheduled (attr g x)) (Some _) :: (if r then [EGen x] else [])).
+      split; [cbn; rewrite Ev2; destruct r; reflexivity|left; destruct r; reflexivity].
+    + apply IH in E. destruct E as (j & new & E1 & E2). exists j.
+      exists (new ++ ESubmit x (if r then Restart else Main) (scheduled (attr g x)) None :: (if r then [EGen x] else [])).
+      split; [rewrite E1; cbn; rewrite Ev2, <- app_assoc; reflexivity|apply in_app_iff; auto].
+Qed.
+
 Lemma execute_record_completed c g x r s new :
   evs (execute_record_gen c g x r s) = new ++ evs s ->
   In x (completed (execute_record_gen c g x r s)) -> ~ In x (completed s) -> x < length (recs s) ->
@@ -56,17 +77,16 @@ Proof.
   - intros _ _ _ Hl. left. change (status (getrec (rec_set_status x DRYRUN s1) x) = DRYRUN).
     rewrite getrec_set_status_eq by lia. reflexivity.
   - destruct (submit_attempts g x r (attempts c) s1) as [ok s2] eqn:E.
-    pose proof (submit_attempts_ok_ev g x r (attempts c) s1) as OK.
-    apply submit_attempts_spec in E. destruct E as [[SS _ _ _ _] _ _ (new2 & V1 & V2 & V3 & V4)].
-    destruct SS as (F1 & _).
     destruct ok.
-    + destruct (negb (scheduled (attr g x))) eqn:Sc.
-      * intros En _ _ _. right. apply negb_true_iff in Sc.
-        destruct (submit_attempts g x r (attempts c) s1) as [ok' s2'] eqn:E' in OK.
-        (* recompute the successful event *)
-        admit.
+    + destruct (submit_attempts_ok_new g x r _ _ _ E) as (j & new2 & V1 & V2).
+      apply submit_attempts_spec in E. destruct E as [[SS _ _ _ _] _ _ _]. destruct SS as (F1 & _).
+      destruct (negb (scheduled (attr g x))) eqn:Sc.
+      * intros En _ _ _. right. apply negb_true_iff in Sc. rewrite Sc in V2.
+        change (evs s2 = new ++ evs s) in En. rewrite V1, E1, app_assoc in En. apply app_inv_tail in En.
+        subst new. exists (kind_of r), j. apply in_app_iff. left. exact V2.
       * intros _ Hc Hn _. exfalso. apply Hn. unfold inprog_add in Hc. sp. rewrite F1, C1 in Hc. exact Hc.
-    + intros _ Hc Hn _. exfalso. apply Hn.
+    + apply submit_attempts_spec in E. destruct E as [[SS _ _ _ _] _ _ _]. destruct SS as (F1 & _).
+      intros _ Hc Hn _. exfalso. apply Hn.
       destruct (mfl_frame (bfs_subtree g x) (inprog_remove x s2)) as (M & _). rewrite M in Hc.
       unfold inprog_remove in Hc. sp. rewrite F1, C1 in Hc. exact Hc.
-Abort.
+Qed.
